@@ -32,8 +32,13 @@ def run(rep):
     rows, stats = V.run_channel("json", rep.seed, rep.tier)
 
     def nontrivial(op, impl):
-        return impl not in ("err", "bad-op", "panic", "malformed")
-    bad_spec, bad_model = V.correspondence(rep, "json", rows, stats, nontrivial=nontrivial)
+        return impl not in ("err", "bad-op", "panic", "malformed", "out-of-domain")
+    single = [r for r in rows if not r[0].startswith("json hist ")]
+    hist = [r for r in rows if r[0].startswith("json hist ")]
+    hstats = {k: v for k, v in stats.items() if k.startswith("hist ")}
+    sstats = {k: v for k, v in stats.items() if not k.startswith("hist ")}
+    bad_spec, bad_model = V.correspondence(rep, "json", single, sstats, nontrivial=nontrivial)
+    bad_hist = history_phase(rep, hist, hstats)
     kinds = {}
     for op, impl, model, spec in rows:
         k = op.split(" ", 2)[1]
@@ -45,6 +50,70 @@ def run(rep):
     rep.coverage["exhaustive"] = False
     rep.coverage["rule"] = ("structured generators of harness/ch_json_gen.go: every single-byte string (as value, key, type name), every IsPrint transition "
                             "point, boundary ints/floats in both float formats, the key-kind x value-kind grid, all key-order permutations of a nested "
-                            "3-key record, random nested values to depth 5 / 40 nodes; an op is non-trivial when the implementation answered with data "
-                            "(not err/panic/malformed); distinct = distinct op lines")
-    V.proof_break_resolution(rep, bool(bad_spec))
+                            "3-key record, random nested values to depth 5 / 40 nodes; harness/ch_json_hist_gen.go: histories of 2-6 encode/decode steps on "
+                            "long-lived interpreters (every ordered pair of a size-graded value pool x format pairs x {script builtins, exported Go functions, "
+                            "two interleaved interpreters}, aliasing grids, random batch / interleaved / aliasing histories); an op is non-trivial when the "
+                            "implementation answered with data (not err/panic/malformed); distinct = distinct op lines")
+    V.proof_break_resolution(rep, bool(bad_spec) or bool(bad_hist))
+
+
+def history_phase(rep, rows, stats, max_report=3):
+    """`hist` ops: one line is a whole history on interpreters (and package-level state) that live as
+    long as the harness process. impl != spec is a failing input; because state left by EARLIER lines
+    of the run can matter (a grown buffer, a warm cache), each candidate is re-run alone in a fresh
+    process and the ones that reproduce alone are preferred for the replay; when none does, the replay
+    carries the shortest prefix of history lines of this run that reproduces it."""
+    bad_spec = [r for r in rows if r[3] != "-" and r[1] != r[3]]
+    bad_model = [r for r in rows if not (r[3] != "-" and r[1] != r[3]) and r[1] != r[2]]
+    distinct = set(r[0] for r in rows if "|" in r[1])
+    steps = sum(r[1].count("|") + 1 for r in rows if "|" in r[1])
+    rep.coverage["channels"]["json.hist"] = {
+        "ops": len(rows), "distinct_nontrivial": len(distinct), "steps": steps,
+        "impl_vs_spec_mismatch": len(bad_spec), "impl_vs_model_mismatch": len(bad_model),
+        "spec_answers": sum(1 for r in rows if r[3] != "-"), "distribution": stats}
+    rep.coverage["evaluations"] = rep.coverage.get("evaluations", 0) + len(rows)
+    rep.coverage["distinct_nontrivial"] = rep.coverage.get("distinct_nontrivial", 0) + len(distinct)
+    for r in rows[::max(1, len(rows) // 3)][:3]:
+        rep.coverage["samples"].append({"op": r[0], "impl": r[1], "model": r[2], "spec": r[3]})
+    bad_spec.sort(key=lambda r: len(r[0]))
+    bad_model.sort(key=lambda r: len(r[0]))
+    reported = 0
+    alone, dependent = [], []
+    for r in bad_spec[:40]:
+        if len(alone) >= max_report:
+            break
+        again = V.exec_impl(r[0] + "\n", 300)
+        if again and again[0] != r[3]:
+            alone.append((r[0], again[0], r[2], r[3]))
+        else:
+            dependent.append(r)
+    for op, impl, model, spec in alone:
+        if rep.match_known(op):
+            rep.violation("failing-input", {}, key=op)
+            continue
+        reported += 1
+        rep.violation("failing-input", {"channel": "json", "ops": [op], "spec_requires": spec, "impl_did": impl, "model_did": model,
+                                        "reproduces_in_a_fresh_process": True, "others_like_it": len(bad_spec),
+                                        "law": "Spec/JsonHistory.lean: an encoded result is a value (EncodeResultsStable, HistoryRoundTrip); "
+                                               "a decoded result changes only when it is itself mutated"}, key=op)
+    if bad_spec and not reported:
+        # state-dependent: needs what earlier history lines of this run left behind
+        op, impl, model, spec = bad_spec[0]
+        ops_all = [r[0] for r in rows]
+        prefix = ops_all[:ops_all.index(op) + 1]
+        for k in (1, 2, 4, 8, 16, 64, 256, len(prefix)):
+            cand = prefix[-min(k + 1, len(prefix)):]
+            out = V.exec_impl("\n".join(cand) + "\n", 600)
+            if out and out[-1] != spec:
+                prefix = cand
+                break
+        reported += 1
+        rep.violation("failing-input", {"channel": "json", "ops": prefix, "spec_requires": spec, "impl_did": impl, "model_did": model,
+                                        "reproduces_in_a_fresh_process": False, "others_like_it": len(bad_spec),
+                                        "note": "the last op fails only after the ops before it ran in the same process"}, key=op)
+    if bad_model and not reported:
+        op, impl, model, spec = bad_model[0]
+        rep.violation("correspondence-break", {"channel": "json", "ops": [r[0] for r in bad_model[:10]], "impl_did": impl, "model_did": model,
+                                               "spec": spec, "theorem_or_correspondence": "correspondence channel `json`, hist ops (impl vs Lean model)",
+                                               "mismatches": len(bad_model)}, key=op, no_input=True)
+    return bad_spec
